@@ -171,9 +171,16 @@ func (j *job[T]) IsClosed() bool {
 	return j.status.Load() == closed
 }
 
-// changeStatus updates the job's status to the provided value.
+// changeStatus moves the job's status forward to the provided value.
+// A job's status never goes backwards: the submitter marks a job as queued after it
+// has been enqueued, and by then the job may already be processing, finished or closed.
 func (j *job[T]) changeStatus(s status) {
-	j.status.Store(s)
+	for {
+		cur := j.status.Load()
+		if cur >= s || j.status.CompareAndSwap(cur, s) {
+			return
+		}
+	}
 }
 
 func (j *job[T]) Wait() {
